@@ -282,6 +282,27 @@ pub fn declared_extent(kind: &str, b: &[u8]) -> Option<usize> {
             }
             Some(o)
         }
+        "ec" => ec_extent(b),
+        "ecdh" => {
+            let e = ec_extent(b)?;
+            b.get(e).map(|l| e + 1 + *l as usize)
+        }
         _ => None,
+    }
+}
+
+/// extent of ECParameters: curve type 3 = named group (3 bytes), type 1 = explicit prime (six
+/// u8-length-prefixed fields); any other curve type is rejected on its first byte
+fn ec_extent(b: &[u8]) -> Option<usize> {
+    match *b.first()? {
+        3 => Some(3),
+        1 => {
+            let mut o = 1;
+            for _ in 0..6 {
+                o += 1 + *b.get(o)? as usize;
+            }
+            Some(o)
+        }
+        _ => Some(1),
     }
 }
